@@ -113,8 +113,9 @@ theorem tagsFromDirective_loc (c : Cat) (td : BDir) :
   · exact Loc.err ⟨rfl, .inr (.inr rfl)⟩
   · exact Loc.ok _
   · exact Loc.err ⟨rfl, .inl rfl⟩
-theorem addTags_loc (d : BDir) (c : Cat) : Loc (At d.id) (addTags d c) := by
+theorem addTags_loc (d : BDir) (anc : List Up) (c : Cat) : Loc (At d.id) (addTags d anc c) := by
   unfold addTags
+  split; · exact Loc.err rfl
   exact Loc.bind ((tagsFromDirective_loc c d).mono fun _ h => h.1) (fun _ => Loc.pure _)
 
 /-! ### the three exceptions -/
@@ -249,7 +250,7 @@ theorem addDirective_loc (banned : List Kind) (d : BDir) (kids : List BDir) (anc
       he.elim .inl fun h => .inr (.inr (.inr ⟨.inr hk, h⟩))
   · exact at_ (addRpcSchema_loc true d anc c)
   · exact at_ (addRpcSchema_loc false d anc c)
-  · exact at_ (addTags_loc d c)
+  · exact at_ (addTags_loc d anc c)
   · exact Loc.ok _
 
 /-! ### the directives an entry of `flatAF [] f` mentions are directives of `flatF f` -/
